@@ -91,6 +91,9 @@ type Store struct {
 	WriteLog []WriteEvent
 	opens    int
 
+	// IgnoreCtx: serve loads even under a finished context (a local store
+	// that never looks at it); default: honour it, as a network-backed one does
+	IgnoreCtx bool
 	// Missing: static set of withheld blocks.
 	Missing map[string]ErrKind
 	// OnRead, when set, is asked before every read (after Missing); a non-nil
@@ -247,7 +250,7 @@ func (s *Store) LinkSystem() *ipld.LinkSystem {
 		}
 		// like a network- or blockstore-backed source, this one honours the
 		// context it is given: a load under a cancelled context fails
-		if lc.Ctx != nil {
+		if lc.Ctx != nil && !s.IgnoreCtx {
 			if err := lc.Ctx.Err(); err != nil {
 				return nil, fmt.Errorf("verif: load of %s under a finished context: %w", cl.Cid, err)
 			}
